@@ -34,7 +34,9 @@ RECURSIVE ChildSeqs(_, _, _, _)
 ChildSeqs(shape, i, first, pop) ==
     IF i > Len(shape) THEN {<<>>}
     ELSE {<<c>> \o rest : c \in Child(shape[i], first, pop), rest \in ChildSeqs(shape, i + 1, first + Width(shape[i]), pop)}
-Trees(shape, op, ng) == {t \in {Grp(op, cs, ng) : cs \in ChildSeqs(shape, 1, 1, op)} : Positive(t)}
+TreesAll(shape, op, ng) == {Grp(op, cs, ng) : cs \in ChildSeqs(shape, 1, 1, op)}
+(* rule conditions need a positive requirement: the root is never negated, inner groups are *)
+Trees(shape, op, ng) == {t \in TreesAll(shape, op, ng) : Positive(t)}
 RECURSIVE Leaves(_, _)
 Leaves(shape, i) == IF i > Len(shape) THEN 0 ELSE Width(shape[i]) + Leaves(shape, i + 1)
 AllShapes == {<<0, 0>>, <<0, 0, 0>>, <<2, 0>>, <<0, 2>>, <<2, 2>>, <<3, 0>>, <<0, 3>>, <<2, 0, 0>>, <<0, 2, 0>>, <<0, 0, 2>>,
@@ -64,7 +66,7 @@ SingleTrees == {A, Score("a", 5, FALSE), Min(2, {"a", "b", "c"}, FALSE), Min(1, 
 (* sampled depth-3 trees: a depth-2 tree under a further chain *)
 Depth3(op, ng) ==
     IF Depth3Samples = 0 THEN {}
-    ELSE LET inner == UNION {Trees(s, o, g) : s \in {<<2, 0>>, <<0, 2>>, <<2, 2>>}, o \in Ops, g \in BOOLEAN}
+    ELSE LET inner == UNION {TreesAll(s, o, g) : s \in {<<2, 0>>, <<0, 2>>, <<2, 2>>, <<0, 0, 0>>}, o \in Ops, g \in BOOLEAN}
              ok == {t \in inner : ~(t.k = op /\ ~t.neg)}
          IN  {t \in {Grp(op, <<x, Lf(5, g5)>>, ng) : x \in RandomSubset(Depth3Samples, ok), g5 \in BOOLEAN} : Positive(t)}
             \cup {t \in {Grp(op, <<Lf(5, g5), x, Lf(6, FALSE)>>, ng) : x \in RandomSubset(Depth3Samples, ok), g5 \in BOOLEAN} : Positive(t)}
@@ -158,10 +160,10 @@ ExtrasCases ==
        pi \in DOMAIN Pool, xi \in DOMAIN ExtSet, ei \in DOMAIN ExtrasSet, m \in {UnitMult, <<3, 2, 1, 2>>}, sep \in {0, 5}}
 
 (* shards: <<family, a, b, c>> *)
-AstShards == {<<"tree", s, op, ng>> : s \in Shapes, op \in Ops, ng \in BOOLEAN}
+AstShards == {<<"tree", s, op, FALSE>> : s \in Shapes, op \in Ops}
 KindShards == {<<"kind", s, op, k>> : s \in KindShapes, op \in Ops, k \in DOMAIN Kinds}
 OtherShards == {<<"single", 0, 0, 0>>, <<"chain", 0, 0, 0>>, <<"alias", 0, 0, 0>>, <<"extras", 0, 0, 0>>}
-               \cup (IF Depth3Samples = 0 THEN {} ELSE {<<"deep", 0, op, ng>> : op \in Ops, ng \in BOOLEAN})
+               \cup (IF Depth3Samples = 0 THEN {} ELSE {<<"deep", 0, op, FALSE>> : op \in Ops})
 Shards == AstShards \cup KindShards \cup OtherShards
 
 BaseTrees == {Grp("and", <<A, Grp("or", <<Id("b", TRUE), C>>, FALSE)>>, FALSE),
